@@ -135,7 +135,7 @@ static int json_patch_apply_add_replace(struct json_object **res,
                                         struct json_object *patch_elem,
                                         const char *path, int add, struct json_patch_error *patch_error)
 {
-	struct json_object *value;
+	struct json_object *value, *new_value;
 	int rc;
 
 	if (!json_object_object_get_ex(patch_elem, "value", &value)) {
@@ -148,12 +148,22 @@ static int json_patch_apply_add_replace(struct json_object **res,
 		return -1;
 	}
 
-	rc = json_pointer_set_with_array_cb(res, path, json_object_get(value),
+	/* The document gets its own copy: the patch must stay untouched by later
+	 * operations on (or by the owner of) the patched document.
+	 */
+	new_value = NULL;
+	if (value != NULL && json_object_deep_copy(value, &new_value, NULL) < 0)
+	{
+		_set_err(ENOMEM, "Unable to copy the 'value' field");
+		return -1;
+	}
+
+	rc = json_pointer_set_with_array_cb(res, path, new_value,
 					    json_object_array_insert_idx_cb, &add);
 	if (rc)
 	{
 		_set_err(errno, "Failed to set value at path referenced by 'path' field");
-		json_object_put(value);
+		json_object_put(new_value);
 	}
 
 	return rc;
@@ -229,13 +239,20 @@ static int json_patch_apply_move_copy(struct json_object **res,
 		return rc;
 	}
 
-	// Note: it's impossible for json_pointer to find the root obj, due
-	// to the path check above, so from.parent is guaranteed non-NULL
-	json_object_get(from.obj);
-
 	if (!move) {
+		/* the copy must be independent of the original */
+		struct json_object *copy = NULL;
+		if (from.obj != NULL && json_object_deep_copy(from.obj, &copy, NULL) < 0)
+		{
+			_set_err(ENOMEM, "Unable to copy the value referenced by 'from' field");
+			return -1;
+		}
+		from.obj = copy;
 		array_set_cb = json_object_array_insert_idx_cb;
 	} else {
+		// Note: it's impossible for json_pointer to find the root obj, due
+		// to the path check above, so from.parent is guaranteed non-NULL
+		json_object_get(from.obj);
 		rc = __json_patch_apply_remove(&from);
 		if (rc < 0) {
 			json_object_put(from.obj);
